@@ -525,7 +525,14 @@ def run(tier, seed):
     # the same header lies handed to a CONNECTION (framing, descriptor bookkeeping and dispatch included), not only to
     # the parser: a client that is told of descriptors it never received
     for name, raw, nsig in count_lies():
-        conn_, t_, _f = fakes.ready_client()
+        try:
+            conn_, t_, _f = fakes.ready_client()
+        except Exception as ex:
+            # bringing a fresh connection up involves nothing but valid bytes: if that fails now, earlier hostile input
+            # left something behind in the process
+            chk.violation('after hostile inputs were decoded in this process a new connection cannot be brought up: %s: %s' % (
+                type(ex).__name__, str(ex)[:80]), dict(kind='code->spec isolation', module='c05', trace=core.traceback_str()[-600:]))
+            break
         b = bound(len(raw), nsig + 16)
         out, calls, r = counted(lambda: conn_.dataReceived(raw), 8 * b)
         recs.append({'len': len(raw), 'siglen': nsig + 16, 'calls': calls // 2, 'outcome': out, 'cpu_ms': 0, 'mem_kb': 0})
